@@ -35,6 +35,18 @@ CHECKS = {
          "Differential generated-input search for PIE / PBKW / PKE: library blob == model blob recomputed from the embedded randomness (PKE recomputed with the recipient secret, or with scripted ephemeral randomness); model-built blobs with chosen nonces (incl. 0xff..ff counter blocks, forced derived IVs) unwrap to the same key on the back end and its sibling.",
          "Same trusted base as C03; Argon2id parallelism 1 only in model-checked cases.",
          "property-based differential testing (proptest) against a reference model, RNG-as-input, sibling differential", "DESIGN.md §5 C07, §3.3"),
+ "C08": ("pv-harness", "exploration",
+         "Generated keys of all five kinds round-trip through text and raw bytes, clones and re-parsed keys behave identically (sign/verify, encrypt/decrypt), public_key() equals an independent derivation; every byte-string length 0..128 and a catalogue of boundary shapes are offered to every key decoder against an independent acceptance oracle built on own big-integer curve arithmetic.",
+         "Trusts libsodium / RustCrypto p384 for deriving reference public keys and the harness's curve-membership arithmetic; Ed25519 small-order points other than the identity are not constrained.",
+         "property-based testing (proptest) + enumerated boundary shapes against an independent acceptance oracle", "DESIGN.md §5 C08"),
+ "C13": ("pv-harness", "exploration",
+         "Generated keys: id equals the reference digest of the canonical PASERK text (foreign hash library), stable across clone/serialise/parse/PEM-vs-DER/sibling; generated id strings accepted iff 33 bytes of strict base64url under the right header; Eq/Ord/Hash agree with the bytes.",
+         "Trusts aws-lc SHA-384 / libsodium BLAKE2b as reference digests.",
+         "property-based differential testing (proptest) against a reference digest", "DESIGN.md §5 C13"),
+ "C15": ("pv-harness", "exploration",
+         "Generated piece lists (0..8 pieces, 0..4 fragments, lengths 0..600): output equals the reference PAE, parses back to the same list (injectivity), streaming writers see the same bytes, boundary shifts always change the output.",
+         "Back-end digest/MAC adapters are covered through C03's bit-exact comparison.",
+         "property-based testing (proptest): reference encoder + inverse parser", "DESIGN.md §5 C15"),
 }
 
 NOT_APPLICABLE = []  # filled while properties are still being built
